@@ -229,12 +229,17 @@ impl Exec for VTimeExec {
             // `new_or_die` (track apigaps): a value inside the rule, a panic outside, never anything else
             ["new_or_die", ns, base, voucher] => {
                 let Some((ns, dt, base, voucher)) = parse_triple(ns, base, voucher) else { return StepOut::bad() };
-                let res = catch_unwind(AssertUnwindSafe(|| {
-                    let vt = VouchedTime::new_or_die(dt, base, voucher_of(voucher));
-                    let lt = vt.get_local_time();
-                    vt.check_or_die();
-                    lt
-                }));
+                // the construction and the accessors are caught separately: an invalid value that
+                // `new_or_die` lets through must not hide behind the accessors' own self-check panic
+                let made = catch_unwind(AssertUnwindSafe(|| VouchedTime::new_or_die(dt, base, voucher_of(voucher))));
+                let res = made.map(|vt| {
+                    catch_unwind(AssertUnwindSafe(|| {
+                        let lt = vt.get_local_time();
+                        vt.check_or_die();
+                        lt
+                    }))
+                    .ok()
+                });
                 let mut so = judge_or_die("new_or_die", res, ns, Some((base, voucher)));
                 so.tags.push(format!("or_die_{}", classify(ns, base, voucher)));
                 so
@@ -261,9 +266,19 @@ impl Exec for VTimeExec {
                     };
                     let made = if or_die { Ok(VouchedTime::now_or_die(provider)) } else { VouchedTime::now(provider) };
                     made.map(|vt| {
-                        let lt = vt.get_local_time();
-                        vt.check_or_die();
-                        lt
+                        if or_die {
+                            // caught separately (see `new_or_die`)
+                            catch_unwind(AssertUnwindSafe(|| {
+                                let lt = vt.get_local_time();
+                                vt.check_or_die();
+                                lt
+                            }))
+                            .ok()
+                        } else {
+                            let lt = vt.get_local_time();
+                            vt.check_or_die();
+                            Some(lt)
+                        }
                     })
                 }));
                 let Some((clock, answer)) = seen else {
@@ -280,7 +295,7 @@ impl Exec for VTimeExec {
                 let mut so = if or_die {
                     judge_or_die("now_or_die", res.map(|r| r.expect("now_or_die returned")), clock, answer)
                 } else {
-                    judge_new("now", res, clock, answer)
+                    judge_new("now", res.map(|r| r.map(|lt| lt.expect("not caught separately"))), clock, answer)
                 };
                 so.obs.insert(0, late_input("now", &line));
                 so.tags.push(format!("{}_{}", op, kind));
@@ -330,7 +345,7 @@ fn judge_new(
 }
 
 /// Observation + oracle for an `_or_die` constructor: a value exactly inside the rule, a panic outside.
-fn judge_or_die(what: &str, res: std::thread::Result<time::PrimitiveDateTime>, ns: i128, answer: Option<(u64, u64)>) -> StepOut {
+fn judge_or_die(what: &str, res: std::thread::Result<Option<time::PrimitiveDateTime>>, ns: i128, answer: Option<(u64, u64)>) -> StepOut {
     let mut so = StepOut::default();
     let expected = match answer {
         Some((base, voucher)) => c14_expected(ns, base, voucher),
@@ -339,12 +354,19 @@ fn judge_or_die(what: &str, res: std::thread::Result<time::PrimitiveDateTime>, n
     let desc = format!("{} ns={} answer={:?}", what, ns, answer);
     match res {
         Ok(lt) => {
-            so.obs.push(format!("ok lt={}", ns_of(lt)));
+            match lt {
+                Some(lt) => {
+                    so.obs.push(format!("ok lt={}", ns_of(lt)));
+                    if ns_of(lt) != ns {
+                        so.violations.push(format!("C14 get_local_time reports {} instead of the construction time: {}", ns_of(lt), desc));
+                    }
+                }
+                None => so.obs.push("ok lt=panic".into()),
+            }
             if !expected {
                 so.violations.push(format!("C14 a VouchedTime exists outside the rule: {}", desc));
-            }
-            if ns_of(lt) != ns {
-                so.violations.push(format!("C14 get_local_time reports {} instead of the construction time: {}", ns_of(lt), desc));
+            } else if lt.is_none() {
+                so.violations.push(format!("C14 get_local_time / check_or_die panicked on a value inside the rule: {}", desc));
             }
         }
         Err(_) => {
